@@ -436,7 +436,14 @@ def rule_C11(env):
                 nleaf += 1
                 res.count("P3")
                 parts, _ = E.final_parts(lf.writes)
-                cnt = len(E.decode_stream(parts, spec)) if parts else 0
+                dec = E.decode_stream(parts, spec) if parts else []
+                cnt = len(dec)
+                broken = [p for row, info, pr in dec for p in pr if row is None or "missing" in p or "truncated" in p or "unterminated" in p]
+                if broken and cnt == 1:
+                    res.add("P3", "emit_and_process/%s/incomplete" % op,
+                            "the bytes emitted for %s are not one complete opcode (%s): the following bytes are read as its argument, so "
+                            "body opcodes and decoded opcodes no longer correspond one to one" % (op, broken[0]),
+                            PV.op_loc(env, "::emit_and_process"), PV.sample(lf, broken))
                 if cnt != 1:
                     res.add("P3", "emit_and_process/%s/opcodes-%d" % (op, cnt),
                             "a chosen body opcode %s contributes %d opcodes to the output on a feasible path (must be exactly one)" % (op, cnt),
